@@ -14,6 +14,8 @@ Scenario (dict):
   actions    {callback name: [action per invocation]}  action: "raise" | "close" | "kbint" | None
   user       [(t_ms, "close")]  user thread
   runs       number of consecutive run_forever calls (default 1)
+  trace      enableTrace(True) with a null handler for the duration of the scenario
+  global_reconnect  websocket.setReconnect(x) instead of run_forever(reconnect=x)
   tls        wss:// with the record-buffering fake TLS socket
   horizon    ms: a watchdog user close() at this time ends scenarios that would run forever
 """
@@ -60,8 +62,16 @@ def sframe_items(item):
                                         "reason": list(reason if status is not None else b"")})]
     if k == "bad":
         return [(wire.sframe(3, b"x"), {"kind": "bad"})]
+    if k == "rawtext":
+        # a text frame with arbitrary bytes: a message if they are well-formed UTF-8, else the end of the conversation
+        b = bytes(item[1])
+        try:
+            b.decode("utf-8")
+            return [(wire.sframe(1, b), {"kind": "msg", "op": 1, "data": list(b)})]
+        except UnicodeDecodeError:
+            return [(wire.sframe(1, b), {"kind": "badutf8", "data": list(b), "op": 1})]
     if k == "badutf8":
-        return [(wire.sframe(1, b"\xff\xfe"), {"kind": "badutf8"})]
+        return [(wire.sframe(1, b"\xff\xfe"), {"kind": "badutf8", "data": [255, 254], "op": 1})]
     if k == "partial":
         return [(bytes(item[1]), {"kind": "partial"})]
     raise ValueError(item)
@@ -376,7 +386,10 @@ def run_app(sc, schedule=None, seed=None, line_preempt=None):
         sched.ev("cb", name="pong", cid=cur_cid(), arg=norm(d))
         act("pong")
 
-    table = {"open": on_open, "reconnect": on_reconnect, "message": on_message, "data": on_data, "error": on_error,
+    def on_cont_message(app, d, fin):
+        sched.ev("cb", name="cont_message", cid=cur_cid(), arg=norm(d), fin=bool(fin))
+
+    table = {"cont_message": on_cont_message, "open": on_open, "reconnect": on_reconnect, "message": on_message, "data": on_data, "error": on_error,
              "close": on_close, "ping": on_ping, "pong": on_pong}
     kw = {"on_" + n: table[n] for n in cbs}
     url = ("wss" if sc.get("tls") else "ws") + "://app.test/x"
@@ -385,6 +398,13 @@ def run_app(sc, schedule=None, seed=None, line_preempt=None):
     if runkw.pop("dispatcher", None) == "ext":
         ext = ExtDispatcher(sched)
         runkw["dispatcher"] = ext
+    import logging as _logging
+    lg = _logging.getLogger("websocket")
+    lg_state = (lg.level, list(lg.handlers))
+    if sc.get("trace"):
+        websocket.enableTrace(True, handler=_logging.NullHandler(), level="DEBUG")
+    if sc.get("global_reconnect") is not None:
+        websocket.setReconnect(sc["global_reconnect"])
     try:
         app = websocket.WebSocketApp(url, **kw)
         holder["app"] = app
@@ -393,7 +413,8 @@ def run_app(sc, schedule=None, seed=None, line_preempt=None):
             for r in range(sc.get("runs", 1)):
                 sched.ev("run_begin", run=r, interval=int(round(1000 * (runkw.get("ping_interval") or 0))),
                          timeout=int(round(1000 * (runkw.get("ping_timeout") or 0))),
-                         reconnect=int(round(1000 * (runkw.get("reconnect") or 0))), cbs=list(cbs),
+                         reconnect=int(round(1000 * (runkw.get("reconnect") if runkw.get("reconnect") is not None
+                                                     else (sc.get("global_reconnect") or 0)))), cbs=list(cbs),
                          dispatcher="ext" if ext else "builtin", tls=bool(sc.get("tls")))
                 try:
                     v = app.run_forever(**runkw)
@@ -498,6 +519,12 @@ def run_app(sc, schedule=None, seed=None, line_preempt=None):
             sched.run(main, "main", wall=60)
     finally:
         undo()
+        if sc.get("trace"):
+            websocket.enableTrace(False, handler=_logging.NullHandler())
+            lg.setLevel(lg_state[0])
+            lg.handlers = lg_state[1]
+        if sc.get("global_reconnect") is not None:
+            websocket.setReconnect(0)
     live = [t.name for t in sched.threads if not t.done]
     sched.ev("quiesce", open=sum(1 for s in net.conns if not s.closed), live=live,
              sock_none=holder["app"].sock is None, deadlock=sched.deadlock, overrun=sched.overrun)
